@@ -52,6 +52,8 @@ pub enum Op {
     AnyAppend { p: Lid, c: Lid },
     AppendAttrNode { p: Lid, c: Lid },
     AppendNsNode { p: Lid, c: Lid },
+    /// append_namespace(parent, &xmlname::CreateNamespace)
+    AppendNamespace { p: Lid, prefix: String, uri: String },
     AppendText { p: Lid, s: String },
     AppendElement { p: Lid, name: Nm },
     AppendComment { p: Lid, s: String },
@@ -128,6 +130,7 @@ impl Op {
             AnyAppend { .. } => "any_append",
             AppendAttrNode { .. } => "append_attribute_node",
             AppendNsNode { .. } => "append_namespace_node",
+            AppendNamespace { .. } => "append_namespace",
             AppendText { .. } => "append_text",
             AppendElement { .. } => "append_element",
             AppendComment { .. } => "append_comment",
@@ -187,7 +190,7 @@ impl Op {
             }
             InsertAfter { r, c } | InsertBefore { r, c } => vec![*r, *c],
             Replace { old, new } => vec![*old, *new],
-            AppendText { p, .. } | AppendElement { p, .. } | AppendComment { p, .. } | AppendPI { p, .. } => vec![*p],
+            AppendText { p, .. } | AppendElement { p, .. } | AppendComment { p, .. } | AppendPI { p, .. } | AppendNamespace { p, .. } => vec![*p],
             AttrInsert { e, .. }
             | AttrRemove { e, .. }
             | AttrGetMutSet { e, .. }
@@ -307,6 +310,12 @@ impl Op {
             },
             AppendAttrNode { p, c } => m.append_special(*p, *c, true),
             AppendNsNode { p, c } => m.append_special(*p, *c, false),
+            AppendNamespace { p, prefix, uri } => {
+                if m.k(*p) != K::Elem {
+                    return Pred::Refuse;
+                }
+                m.ns_insert(*p, prefix, uri)
+            }
             AppendText { p, s } => {
                 let c = m.new_root(Kind::Text(s.clone()));
                 Self::append_new(m, *p, c)
@@ -595,6 +604,10 @@ impl Op {
             AnyAppend { p, c } => e2s(x.any_append(h(*p), h(*c))).map(Some),
             AppendAttrNode { p, c } => e2s(x.append_attribute_node(h(*p), h(*c))).map(Some),
             AppendNsNode { p, c } => e2s(x.append_namespace_node(h(*p), h(*c))).map(Some),
+            AppendNamespace { p, prefix, uri } => {
+                let ns = xot::xmlname::CreateNamespace::new(x, prefix, uri);
+                e2s(x.append_namespace(h(*p), &ns)).map(Some)
+            }
             AppendText { p, s } => e2s(x.append_text(h(*p), s)).map(|_| None),
             AppendElement { p, name: nm } => {
                 let nm = name(x, nm);
